@@ -229,10 +229,11 @@ func fieldGens() []fieldGen {
 			return v, model.Null()
 		}},
 		{"map[string]int", reflect.TypeOf(map[string]int{}), false, func(r *rand.Rand) (reflect.Value, model.Value) {
-			return reflect.ValueOf(map[string]int{"a": 1}), model.Null()
+			// not promised; if converted at all, this is the faithful value
+			return reflect.ValueOf(map[string]int{"a": 1}), model.Hash(model.HashEnt{Key: model.Str("a"), Val: model.Int(1)})
 		}},
 		{"map[int]string", reflect.TypeOf(map[int]string{}), false, func(r *rand.Rand) (reflect.Value, model.Value) {
-			return reflect.ValueOf(map[int]string{1: "a"}), model.Null()
+			return reflect.ValueOf(map[int]string{1: "a"}), model.Hash(model.HashEnt{Key: model.Int(1), Val: model.Str("a")})
 		}},
 		{"[]uint", reflect.TypeOf([]uint{}), false, func(r *rand.Rand) (reflect.Value, model.Value) { return reflect.ValueOf([]uint{1, 2}), model.Null() }},
 		{"[][]int", reflect.TypeOf([][]int{}), false, func(r *rand.Rand) (reflect.Value, model.Value) {
@@ -311,6 +312,9 @@ func RandStruct(r *rand.Rand, n, unsupportedPct, unexportedPct int) HostObject {
 
 func zeroWant(g fieldGen, want model.Value) model.Value {
 	if !g.supported {
+		if want.K == model.KHash {
+			return model.Hash()
+		}
 		return model.Null()
 	}
 	switch want.K {
